@@ -126,6 +126,33 @@ Example raw_mul_needs_table_width :
   raw_mul g 9 = Ret (Some (2, 12)) /\ multiply c (Some (2, 12)) 9 = Ret (Some (20, 40)).
 Proof. vm_compute. auto. Qed.
 
+(* ---- points_for_x on a curve of odd order: no point has y = 0, so the statement is unconditional in x ---- *)
+Theorem points_for_x_odd_order c : M1 c -> cp c mod 4 = 3 -> M3 c -> M4 c -> Z.odd (cn c) = true ->
+  (forall P, valid c P -> order_kills c P) ->
+  forall (g : gen) (x : Z), gc g = c ->
+  match points_for_x g x with
+  | Ret (P0, P1) =>
+      exists y0 y1, P0 = Some (x, y0) /\ P1 = Some (x, y1) /\ Z.even y0 = true /\ Z.odd y1 = true /\
+        0 < y0 < cp c /\ 0 < y1 < cp c /\ y0 + y1 = cp c /\
+        forall y, 0 <= y < cp c -> (on_curve c (Some (x, y)) <-> y = y0 \/ y = y1)
+  | Raise _ => forall y, ~ on_curve c (Some (x, y))
+  | OutOfFuel => False
+  end.
+Proof.
+  intros Hp Hm4 H3 H4 Hodd Hord g x Hgc.
+  assert (Hp2 : cp c <> 2) by (intros E; rewrite E in Hm4; discriminate).
+  assert (Hno2 : ~ on_curve c (Some (x, 0))).
+  { intros Hon.
+    pose proof (red_valid_c c Hp Hp2 _ Hon) as HV. cbn [red] in HV. rewrite Zmod_0_l in HV.
+    pose proof (odd_order_neg_reduced c Hp Hp2 H4 _ (cn c) HV Hodd (Hord _ HV)) as K.
+    destruct HV as [HVon HVr].
+    destruct (neg_gneg c Hp Hp2 _ HVon) as (N & EN & _ & _).
+    specialize (K N EN). cbn [neg] in EN. unfold mk_point in EN.
+    destruct (contains_point c _); inversion EN. subst N. cbn in K. lia. }
+  destruct c as [p a b n] eqn:Ec. cbn [cp ca cb cn] in *.
+  apply (points_for_x_spec p Hp Hm4 H3 a b n g Hgc x Hno2).
+Qed.
+
 (* ---- instantiation on toy curves: no premise left ---- *)
 Section Toy.
 Variable c : curve.
@@ -166,16 +193,7 @@ Theorem toy_points_for_x g x : gc g = c ->
   end.
 Proof.
   intros Hgc.
-  assert (Hno2 : ~ on_curve c (Some (x, 0))).
-  { intros Hon.
-    pose proof (red_valid_c c Hp Hp2 _ Hon) as HV. cbn [red] in HV. rewrite Zmod_0_l in HV.
-    pose proof (odd_order_neg_reduced c Hp Hp2 H4 _ (cn c) HV (tf_nodd c F) (tf_order c F _ HV)) as K.
-    destruct HV as [HVon HVr].
-    destruct (neg_gneg c Hp Hp2 _ HVon) as (N & EN & _ & _).
-    specialize (K N EN). cbn [neg] in EN. unfold mk_point in EN.
-    destruct (contains_point c _); inversion EN. subst N. cbn in K. lia. }
-  destruct c as [p a b n] eqn:Ec. cbn [cp ca cb cn] in *.
-  apply (points_for_x_spec p Hp (tf_mod4 _ F) (tf_fermat _ F) a b n g Hgc x Hno2).
+  apply (points_for_x_odd_order c Hp (tf_mod4 c F) (tf_fermat c F) H4 (tf_nodd c F) (tf_order c F) g x Hgc).
 Qed.
 
 End Toy.
